@@ -5,7 +5,7 @@ QUICK = [
     'CCO', 'CC(=O)O', 'C#N', 'C[N+](C)(C)C', '[O-]C=O', 'CC[O-].[Na+]', '[13CH4]', 'C[2H]', '[CH3]', 'C[CH]C',
     'c1ccccc1', 'c1ccncc1', 'c1cc[nH]c1', 'c1ccoc1', 'C1CC1', 'C1CC1C', 'C=C=C', 'CS(=O)(=O)C', 'OP(O)(O)=O',
     'C[C@H](N)O', 'F[C@](Cl)(Br)I', 'F/C=C/Cl', 'C[C@H](O)/C=C/F', 'FC=[C@]=CCl', 'C[C@H]1CCO1', '[Fe+2].[Cl-].[Cl-]',
-    'C[Si](C)(C)C', 'B(O)O', 'CC(C)(C)C', 'N#[N+][O-]', 'C[N+](=O)[O-]', 'O=C=O', '[NH4+]', 'Cl[Pt](Cl)(N)N',
+    'C[C@]12CCC[C@H]1C2', 'C[Si](C)(C)C', 'B(O)O', 'CC(C)(C)C', 'N#[N+][O-]', 'C[N+](=O)[O-]', 'O=C=O', '[NH4+]', 'Cl[Pt](Cl)(N)N',
 ]
 THOROUGH = QUICK + [
     'CC(=O)Oc1ccccc1', 'c1ccc2ccccc2c1', 'c1ccc2[nH]ccc2c1', 'C1CC2CC1C2', 'C1CCC2(CC1)CCCC2', 'OC(=O)[C@@H](N)CS',
@@ -16,3 +16,10 @@ THOROUGH = QUICK + [
 # documented heuristic gaps (property texts of C01 / C06 / C14): kept out of the clauses that exclude them
 GAP_PSEUDO_ASYMMETRIC = ['C[C@H]1CC[C@H](C)CC1', 'C[C@H]1CC[C@@H](C)CC1']
 GAP_CAGES = ['C12C3C1C4C2C34']
+
+# stereo centres whose stereogenicity depends on other labels (pseudo-asymmetric / E-Z flanked): used where the clause
+# is about keeping labels, not about canonical strings
+DEPENDENT_STEREO = ['C[C@H](O)[C@H](F)[C@@H](C)O', 'C/C=C/[C@H](O)/C=C\\C']
+# larger ring systems with multi-closure stereo centres: canonical writer only (too many random spellings)
+BIG_STEREO = ['C[C@]12CC[C@H]3[C@@H](CCCC3)[C@@H]1CC[C@@H]2O', 'O[C@H]1C[C@@H]2CC[C@H]1C2',
+              'C[C@H]1CC[C@@H]2[C@@H](C1)CC[C@H]2O']
